@@ -46,6 +46,12 @@ func run(c *props.Ctx) {
 	plycommon.FaceAscii(e)
 	plycommon.HDR2(e, ft)
 	plycommon.CLAIM1(e)
+	plycommon.UNW1(e)
+	decode := map[*ssa.Function]bool{}
+	for _, f := range e.DecodeScope() {
+		decode[f] = true
+	}
+	plycommon.CFG1(e, func(fn *ssa.Function) bool { return !decode[fn] })
 
 	c.R.Floor("IDX-1", 3)
 	c.R.Floor("LAY-7", 6)
@@ -59,4 +65,6 @@ func run(c *props.Ctx) {
 	c.R.Floor("AXIS-1", 15)
 	c.R.Floor("REC-1", 12)
 	c.R.Floor("CLAIM-1", 3)
+	c.R.Floor("UNW-1", 1)
+	c.R.Floor("CFG-1", 3)
 }
